@@ -88,6 +88,17 @@ P = {
   note="Trusted: emojicon's tables (read from the pinned source for the cap rule); rustc MIR; the splitter's value-level behaviour.",
   technique="provenance + dominance/guard analysis + iterator-chain shape rule + comparator-table × sort-callee rule + dependency table agreement",
   ref="§4 C18"),
+ "C09": dict(
+  text="Dominance with polarity of the learned map's insert and of the file write by `preselected ≠ committed index ∧ suggestions on`, "
+       "who-may-write on the map during commit, must-assign of the comparison field next to every list constructor (so the comparison never uses a "
+       "stale index), agreement of path getter and (de)serialised type between the constructor's reader and the commit's writer, a truncating "
+       "write, the constants and sources of the two split calls (key: buffer/false, value: committed list entry/true) and of the look-up, the "
+       "look-up order, and set inclusion between the characters the wrapping stage can add (quoter constants from MIR, okkhor's punctuation images "
+       "from its pinned source) and the splitter's punctuation set. Decides the structural necessary conditions of the round trip.",
+  note="Trusted: serde_json round-trips a string map; std::fs::write truncates; rustc MIR. The `,,` joiner image is a recorded known finding. "
+       "Atomicity of the save across crash points is not decided (C10 decides load tolerance).",
+  technique="dominance/guard analysis + who-may-write + writer/reader agreement + constant/provenance rule + alphabet set inclusion",
+  ref="§4 C09"),
 }
 
 NA_REASON = "rule module not built yet in this round (see DESIGN.md §4 for the planned static rules)"
